@@ -10,9 +10,11 @@ import (
 	"fmt"
 	"os"
 	"runtime"
+	"strings"
 	"sync"
 	"sync/atomic"
 	"testing"
+	"time"
 
 	"github.com/influxdata/influxql"
 	"pgregory.net/rapid"
@@ -276,6 +278,131 @@ func TestVerifC19FieldTypeRace(t *testing.T) {
 		stats.Case(g >= 3, fmt.Sprint(idx, string(types), rounds), "index:"+idx, fmt.Sprintf("goroutines:%d", g))
 		if stats.WantSample() {
 			stats.Sample(map[string]interface{}{"index": idx, "types": string(types), "rounds": rounds})
+		} else {
+			stats.Sample(nil)
+		}
+	})
+}
+
+// TestVerifC19SnapshotVsDelete (run with -race): cache snapshots racing with series deletes of another
+// measurement and with writes; the race detector is the oracle, plus: the untouched series keeps every
+// acknowledged point.
+func TestVerifC19SnapshotVsDelete(t *testing.T) {
+	stats := verifkit.For("C19", "TestVerifC19SnapshotVsDelete",
+		"one real shard (inmem; tsi1 is excluded here because of the known delete-vs-tsi-compaction-deadlock): a writer appends to a kept series and to a victim measurement, a second goroutine takes cache snapshots, a third deletes victim series with and without time bounds, for a drawn number of rounds; oracle: no race-detector report, no error, no panic, and the kept series returns every acknowledged point afterwards. non-trivial = at least 20 rounds; distinct = (rounds, batch size)")
+	defer stats.Flush()
+	rapid.Check(t, func(rt *rapid.T) {
+		root, err := os.MkdirTemp("", "c19s")
+		if err != nil {
+			rt.Fatal(err)
+		}
+		defer os.RemoveAll(root)
+		b, err := vNewBed(root, "inmem", 1)
+		if err != nil {
+			rt.Fatalf("open: %v", err)
+		}
+		defer b.close()
+		rounds := rapid.IntRange(5, 60).Draw(rt, "rounds")
+		batch := rapid.IntRange(1, 20).Draw(rt, "batch")
+		snapshotters := rapid.IntRange(1, 2).Draw(rt, "snapshotters")
+		deleters := rapid.IntRange(1, 4).Draw(rt, "deleters")
+		var wg sync.WaitGroup
+		var failMu sync.Mutex
+		var failure string
+		fail := func(s string) {
+			failMu.Lock()
+			if failure == "" {
+				failure = s
+			}
+			failMu.Unlock()
+		}
+		var acked int64
+		stop := make(chan struct{})
+		wg.Add(1 + snapshotters + deleters)
+		go func() { // writer
+			defer wg.Done()
+			defer close(stop)
+			for r := 0; r < rounds; r++ {
+				var pts []modelsPoint
+				n0 := atomic.LoadInt64(&acked)
+				for k := 0; k < batch; k++ {
+					pts = append(pts, vPt{M: "m0", Tags: map[string]string{"host": "keep"}, Fields: map[string]vVal{"f0": vF(float64(n0 + int64(k)))}, TS: n0 + int64(k)}.point())
+					pts = append(pts, vPt{M: "m1", Tags: map[string]string{"host": fmt.Sprintf("v%d", k%3)}, Fields: map[string]vVal{"f0": vF(1)}, TS: n0 + int64(k)}.point())
+				}
+				if err := b.store.WriteToShard(1, pts); err != nil {
+					fail("write: " + err.Error())
+					return
+				}
+				atomic.StoreInt64(&acked, n0+int64(batch))
+			}
+		}()
+		for sn := 0; sn < snapshotters; sn++ {
+			go func() { // snapshotter
+				defer wg.Done()
+				for {
+					select {
+					case <-stop:
+						return
+					default:
+					}
+					if err := b.snapshot(1); err != nil && err != ErrSnapshotInProgress && !strings.Contains(err.Error(), "snapshot in progress") {
+						fail("snapshot: " + err.Error())
+						return
+					}
+					runtime.Gosched()
+				}
+			}()
+		}
+		for dl := 0; dl < deleters; dl++ {
+			go func(dl int) { // deleter
+				defer wg.Done()
+				for i := dl; ; i++ {
+					select {
+					case <-stop:
+						return
+					default:
+					}
+					sel := vSel{M: "m1", TagK: "host", TagV: fmt.Sprintf("v%d", i%3)}
+					switch i % 3 {
+					case 0:
+						sel.HasMin, sel.HasMax, sel.Min, sel.Max = true, true, 0, int64(i)
+					case 1:
+						// a range no file overlaps: the delete then looks at the cache alone
+						sel.HasMin, sel.HasMax, sel.Min, sel.Max = true, true, 1<<40, 1<<41
+					}
+					if err := b.deleteSeries(sel); err != nil {
+						fail("delete: " + err.Error())
+						return
+					}
+				}
+			}(dl)
+		}
+		done := make(chan struct{})
+		go func() { wg.Wait(); close(done) }()
+		select {
+		case <-done:
+		case <-time.After(120 * time.Second):
+			rt.Fatalf("%s writer, snapshotter and deleter did not finish within 120s", verifkit.Sig("concurrent-deadlock"))
+		}
+		if failure != "" {
+			rt.Fatalf("%s %s", verifkit.Sig("concurrent-operation-error"), failure)
+		}
+		rows, err := b.readField(1, "m0", "f0", true, influxql.MinTime, influxql.MaxTime, "host = 'keep'")
+		if err != nil {
+			rt.Fatalf("%s %v", verifkit.Sig("concurrent-read-error"), err)
+		}
+		have := map[int64]bool{}
+		for _, r := range rows {
+			have[r.TS] = true
+		}
+		for ts := int64(0); ts < acked; ts++ {
+			if !have[ts] {
+				rt.Fatalf("%s point ts=%d of the kept series was acknowledged and is not readable after %d rounds of concurrent snapshots and deletes of another measurement (%d of %d present)", verifkit.Sig("acknowledged-write-lost"), ts, rounds, len(rows), acked)
+			}
+		}
+		stats.Case(rounds >= 20, fmt.Sprint(rounds, batch, snapshotters, deleters), fmt.Sprintf("rounds>=20:%v", rounds >= 20))
+		if stats.WantSample() {
+			stats.Sample(map[string]interface{}{"rounds": rounds, "batch": batch, "acked_points": acked})
 		} else {
 			stats.Sample(nil)
 		}
